@@ -127,6 +127,10 @@ fn same_kind_map(m: &BTreeMap<String, Val>) -> (BTreeMap<String, E>, BTreeMap<St
 
 /// the answer of the implementation, as wire text; panics are caught by the caller
 fn run_inner(op: &str, a: &[Arg]) -> String {
+    if op.starts_with("law.") {
+        let args: Vec<String> = a.iter().map(|x| xs(x).to_string()).collect();
+        return crate::laws::run_law(op, &args);
+    }
     match op {
         // ---- conversions
         "conv.ET" => match f(&a[0]) {
